@@ -865,7 +865,9 @@ def run(ctx):
         fb.mkdir()
         gt, genes, n_rows = reference_inputs(rng, fb, min_leaves=5, max_leaves=7, levels=2)
         rat = max(3, n_rows // 6)
-        wk = lambda k: range(min(k, wmax))
+        # the first workers (their failure is seen while later chunks are still being dispatched) and the LAST one
+        # (seen only by the final drain)
+        wk = lambda k: sorted(set(range(min(k, wmax))) | ({k - 1} if k > 0 else set()))
         for npz in nps:
             stage_faults(ctx, rng, 'stats', f'{rd}n{npz}', lambda d, npz=npz: stats_call(fb, d, gt, rat, npz),
                          None, wk, npz, phases=1, what=f'{n_rows} rows, {rat} at a time, tree {gt.shape_key()}')
